@@ -13,7 +13,7 @@ F = [
  # owner / poller
  ("opc","opcT"),("oco","bool"),("ocbit","bool"),("odis","nat"),("ounw","unw"),("ofin","nat"),("opay","unw"),
  ("oto","option Z"),("odl","option Z"),("opdl","option Z"),("ocall","Z"),("oalld","bool"),("ob","nat"),("ocur","nat"),("oev","nat"),
- ("ojres","aresult"),("fi","nat"),("ostash","qent"),
+ ("ojres","aresult"),("fi","nat"),("ostash","qent"),("owk","bool"),
  # global
  ("now","Z"),("nexta","nat"),("nexte","nat"),
  # ghost
